@@ -541,6 +541,9 @@ def main():
         undecided.append(str(e))
     except Exception:
         undecided.append('internal error: ' + traceback.format_exc()[-3000:])
+    if only:
+        # a partial run (--jobs) must not overwrite the property's evidence file
+        os.environ.setdefault('VERIF_EVIDENCE_DIR', os.path.join(ROOT, '.build', 'partial_evidence'))
     return finish(prop, tier, seed, t0, log, results, undecided, bdir, keep)
 
 
